@@ -40,19 +40,41 @@ pub assume_specification<T> [Option::<T>::or] (a: Option<T>, b: Option<T>) -> (r
 pub assume_specification<T> [Option::<Option<T>>::flatten] (a: Option<Option<T>>) -> (r: Option<T>)
     ensures r == (match a { Some(x) => x, None => None });
 
-#[verifier::external_body]
-pub fn v_partition<'a, T, F: Fn(&&'a T) -> bool>(s: &'a [T], f: F) -> (r: (Vec<&'a T>, Vec<&'a T>))
-    requires forall|x: &&'a T| f.requires((x,)),
+/// R-std: `std::iter::once(a).chain(b.iter().cloned()).collect::<Vec<_>>()` for item paths (verified)
+pub fn v_once_chain_cloned_paths(first: crate::grammar::ItemPath, rest: &[crate::grammar::ItemPath]) -> (r: Vec<crate::grammar::ItemPath>)
+    ensures r@ == seq![first] + rest@,
 {
-    s.iter().partition(f)
+    let mut out: Vec<crate::grammar::ItemPath> = Vec::new();
+    out.push(first);
+    let mut i: usize = 0;
+    while i < rest.len()
+        invariant i <= rest.len(), out@ == seq![first] + rest@.take(i as int),
+        decreases rest.len() - i,
+    {
+        out.push(rest[i].clone());
+        proof { assert(rest@.take(i as int + 1) == rest@.take(i as int).push(rest@[i as int])); }
+        i += 1;
+    }
+    proof { assert(rest@.take(rest@.len() as int) == rest@); }
+    out
 }
-#[verifier::external_body]
-pub fn v_once_chain<'a, T>(first: &'a T, rest: &Vec<&'a T>) -> (r: Vec<&'a T>)
-    ensures r@ == seq![first] + rest@
+/// R-std: `std::iter::once(a).chain(b.iter().cloned()).collect::<Vec<_>>()` (verified)
+pub fn v_once_chain_cloned<T: Clone>(first: T, rest: &[T]) -> (r: Vec<T>)
+    ensures r@.len() == rest@.len() + 1, r@[0] == first, forall|i: int| 0 <= i < rest@.len() ==> cloned(rest@[i], #[trigger] r@[i + 1]),
 {
-    std::iter::once(first).chain(rest.iter().copied()).collect()
+    let mut out: Vec<T> = Vec::new();
+    out.push(first);
+    let mut i: usize = 0;
+    while i < rest.len()
+        invariant i <= rest.len(), out@.len() == i + 1, out@[0] == first,
+            forall|k: int| 0 <= k < i ==> cloned(rest@[k], #[trigger] out@[k + 1]),
+        decreases rest.len() - i,
+    {
+        out.push(rest[i].clone());
+        i += 1;
+    }
+    out
 }
-
 // ---------- R-fmt helpers: format!(LIT, args) whose value matters ----------
 #[verifier::external_body]
 pub fn v_format1_usize(lit: &str, a: usize) -> (r: String)
@@ -317,4 +339,5 @@ pub fn v_set_state(reg: &mut crate::semantic::TypeRegistry, p: &crate::grammar::
 }
 pub assume_specification [<crate::semantic::types::ItemState as Clone>::clone] (p: &crate::semantic::types::ItemState) -> (r: crate::semantic::types::ItemState)
     ensures r == *p;
+
 }
